@@ -418,8 +418,19 @@ func (g *generatorContext) parseLiteral(lex *structLexer) (node, error) { // nol
 }
 
 func indirectType(t reflect.Type) reflect.Type {
-	if t.Kind() == reflect.Ptr || t.Kind() == reflect.Slice {
-		return indirectType(t.Elem())
+	// Only defined types can refer to themselves (eg. "type T []T"): stop when one comes around again.
+	var seen map[reflect.Type]bool
+	for t.Kind() == reflect.Ptr || t.Kind() == reflect.Slice {
+		if t.Name() != "" {
+			if seen[t] {
+				return t
+			}
+			if seen == nil {
+				seen = map[reflect.Type]bool{}
+			}
+			seen[t] = true
+		}
+		t = t.Elem()
 	}
 	return t
 }
